@@ -274,6 +274,7 @@ void run(const Json& plan)
             }
             auto cl = std::make_shared<actors::Client>(static_cast<int>(all.size()), port, st);
             cl->custom_net = true;
+            cl->parse_http = http;
             cl->from_server.sndbuf = static_cast<size_t>(std::max<i64>(64, c.num("sndbuf", 65536)));
             cl->from_server.rcvbuf = cl->from_server.sndbuf;
             cl->from_server.mss = std::min<size_t>(1460, cl->from_server.rcvbuf);
